@@ -259,6 +259,19 @@ func (c *Ctx) checkInvariants(fr *Frame, li *loopInfo, st *State, reach string, 
 	if ls == nil {
 		return
 	}
+	if kind == "back" && len(ls.Steps) > 0 && li.headSt != nil {
+		sev := c.invEval(fr, st, header, phis)
+		sev.prevSt = li.headSt
+		for i, sc := range ls.Steps {
+			tv, err := sev.eval(sc.Expr)
+			if err != nil {
+				c.unsupportedf("loop %d step %d of %s: %v", li.ordinal, i+1, c.w.keyOfAny(fr.fn), err)
+				continue
+			}
+			c.oblige("POST", fmt.Sprintf("STEP.loop%d.%d", li.ordinal, i+1), header.Instrs[0].Pos(), reach, tv.T,
+				fmt.Sprintf("loop %d step (one iteration): %s", li.ordinal, sc.Text))
+		}
+	}
 	ev := c.invEval(fr, st, header, phis)
 	for i, inv := range ls.Invariants {
 		tv, err := ev.eval(inv.Expr)
@@ -291,6 +304,18 @@ func (c *Ctx) assumeInvariants(fr *Frame, li *loopInfo, st *State, reach string)
 
 func (c *Ctx) havocLoop(fr *Frame, li *loopInfo, entry *State, reach string) *State {
 	st := entry.clone()
+	if c.loopHasTracedCalls(fr, li) {
+		old := st.trN
+		st.trN = c.havoc("trn", "Int")
+		c.assume(reach, fmt.Sprintf("(>= %s %s)", st.trN, old))
+		for _, a := range []string{"TR_fn", "TR_a1", "TR_a2", "TR_a3", "TR_a4", "TR_a5", "TR_res", "TR_res2", "TR_len", "TR_sa_arr", "TR_sa_off", "TR_sa_len", "TR_sa_cap", "TR_sr_arr", "TR_sr_off", "TR_sr_len", "TR_sr_cap"} {
+			before := c.arr(st, a, "Int")
+			st.heap[a] = c.havoc(a, "(Array Int Int)")
+			k := c.fresh("k")
+			c.lines = append(c.lines, fmt.Sprintf("(assert (forall ((%s Int)) (! (=> (< %s %s) (= (select %s %s) (select %s %s))) :pattern ((select %s %s)))))",
+				k, k, old, st.heap[a], k, before, k, st.heap[a], k))
+		}
+	}
 	ms := c.mods.LoopMods(fr.fn, li.blocks)
 	c.applyMods(st, ms)
 	for a := range ms.Locals {
@@ -353,7 +378,7 @@ func (c *Ctx) run() {
 	c.sorts.constArr = c.constArray
 	defer func() { c.sorts.constArr = nil }()
 	fn := c.fn
-	st := &State{heap: map[string]string{}, locals: map[*ssa.Alloc]string{}, alloc: "alloc_entry", held: "held_entry"}
+	st := &State{heap: map[string]string{}, locals: map[*ssa.Alloc]string{}, alloc: "alloc_entry", held: "held_entry", trN: "0"}
 	c.declare("alloc_entry", "Int")
 	c.declare("held_entry", "Int")
 	c.assume("true", "(> alloc_entry nglobals)")
@@ -422,6 +447,16 @@ func (c *Ctx) run() {
 			Reach: "true", Goal: "true", Detail: "requires && background is satisfiable (expects sat)", ctx: c, Track: map[string]string{}})
 	}
 	rets := c.execBody(fr, st, "true")
+	// vacuity guard: some return must be reachable (contradictory assumptions - a wrong contract assumed at
+	// a call, an inconsistent invariant - would make every obligation after them pass)
+	if len(rets) > 0 {
+		var rs []string
+		for _, r := range rets {
+			rs = append(rs, r.reach)
+		}
+		c.obls = append(c.obls, &Obligation{Name: c.key + "#VACUITY.returns", Family: "VACUITY", Fn: c.key, Upto: len(c.lines),
+			Reach: or(rs...), Goal: "true", Detail: "some return point is reachable under all assumptions made along the way (expects not unsat)", ctx: c, Track: map[string]string{}})
+	}
 	// well-formedness obligations at every return
 	if c.wants("WF") {
 		for ri, r := range rets {
@@ -431,6 +466,9 @@ func (c *Ctx) run() {
 			}
 			for _, a := range fr.allocs {
 				for _, ti := range c.typeInvsFor(a.t) {
+					if ti.Assumed {
+						continue
+					}
 					if f, ok := c.invTerm(ti, a.ref, types.NewPointer(a.t), r.st); ok {
 						c.oblige("WF", fmt.Sprintf("WF.inv.%s.ret%d", sanitize(ti.Type), ri+1), r.pos, and(r.reach, a.reach), f,
 							"an object allocated here must satisfy the invariant of "+ti.Type+" ("+ti.Text+")")
@@ -522,8 +560,21 @@ func (c *Ctx) applyModsImpl(st *State, ms *ModSet) {
 		// effects bounded by the EC frame: EC arrays are unconstrained afterwards; every other array keeps
 		// the entries of pre-existing references (the callee may still allocate and initialise fresh objects)
 		for _, n := range sortedKeys(c.mods.ECArrays) {
-			c.arr(st, n, c.mods.ECArrays[n])
+			before := c.arr(st, n, c.mods.ECArrays[n])
 			c.havocArr(st, n)
+			if c.mods.IsStoreArray(n) && ms.StoreRef != "*" {
+				// variable stores: only the callee's own scope (its env argument's store) may change among the
+				// stores that existed before the call
+				after := st.heap[n]
+				r := c.fresh("r")
+				// iterator progress (the store of an iterator's own environment) is part of the EC frame
+				exc := fmt.Sprintf("(not (iterStore %s))", r)
+				if ms.StoreRef != "" {
+					exc = fmt.Sprintf("(and (not (= %s %s)) (not (iterStore %s)))", r, ms.StoreRef, r)
+				}
+				c.lines = append(c.lines, fmt.Sprintf("(assert (forall ((%s Int)) (! (=> (and (< %s %s) %s) (= (select %s %s) (select %s %s))) :pattern ((select %s %s)))))",
+					r, r, old, exc, after, r, before, r, after, r))
+			}
 		}
 		for _, n := range sortedKeys(ms.Arrays) {
 			if _, isEC := c.mods.ECArrays[n]; !isEC {
@@ -532,7 +583,7 @@ func (c *Ctx) applyModsImpl(st *State, ms *ModSet) {
 			}
 		}
 		for _, n := range sortedKeys(st.heap) {
-			if _, ok := c.arrays[n]; !ok {
+			if _, ok := c.arrays[n]; !ok || strings.HasPrefix(n, "TR_") {
 				continue
 			}
 			if _, isEC := c.mods.ECArrays[n]; isEC {
@@ -553,7 +604,7 @@ func (c *Ctx) applyModsImpl(st *State, ms *ModSet) {
 	if ms.FreshTop {
 		// every known array: entries of pre-existing references are preserved
 		for _, n := range sortedKeys(st.heap) {
-			if _, ok := c.arrays[n]; !ok {
+			if _, ok := c.arrays[n]; !ok || strings.HasPrefix(n, "TR_") {
 				continue
 			}
 			before := st.heap[n]
@@ -713,7 +764,7 @@ func (c *Ctx) applyModsExcept(st *State, ms *ModSet, refs []string) {
 	}
 	if ms.Top || ms.EC || ms.FreshTop {
 		for n := range st.heap {
-			if s, ok := c.arrays[n]; ok {
+			if s, ok := c.arrays[n]; ok && !strings.HasPrefix(n, "TR_") {
 				names[n] = s
 			}
 		}
@@ -776,6 +827,21 @@ func (c *Ctx) invTerm(ti *TypeInv, self string, t types.Type, st *State) (string
 // assumeInv: the type invariant of a value that comes from outside this activation's own allocations.
 func (c *Ctx) assumeInv(reach, term string, t types.Type, st *State) {
 	if c.specDepth > 0 || c.noWF {
+		return
+	}
+	if _, isIface := t.Underlying().(*types.Interface); isIface && c.w.isRepoInterface(t) {
+		// closed world: the invariant of whichever node type the value holds
+		for _, it := range c.w.Implementers(t.Underlying().(*types.Interface)) {
+			pt, ok := it.(*types.Pointer)
+			if !ok {
+				continue
+			}
+			for _, ti := range c.typeInvsFor(pt.Elem()) {
+				if f, ok := c.invTerm(ti, term, it, st); ok {
+					c.assume(reach, implies(fmt.Sprintf("(and (not (= %s 0)) (= (dtype %s) %s))", term, term, c.tagOf(it)), f))
+				}
+			}
+		}
 		return
 	}
 	var base types.Type = t
@@ -865,9 +931,23 @@ func (c *Ctx) wfRead(reach string, term string, t types.Type, st *State) {
 		c.assume(reach, c.isValTerm(term))
 		return
 	}
+	if isASTType(t) && isRefLike(t) {
+		// elements of the syntax tree's child lists are never nil (parser output, assumed)
+		c.assume(reach, c.nonNil(term))
+		c.assumeInv(reach, term, t, st)
+		return
+	}
 	if _, isStruct := t.Underlying().(*types.Struct); isStruct {
 		c.assumeInv(reach, term, t, st)
 	}
+}
+
+func isASTType(t types.Type) bool {
+	if p, ok := t.(*types.Pointer); ok {
+		t = p.Elem()
+	}
+	n, ok := t.(*types.Named)
+	return ok && n.Obj().Pkg() != nil && n.Obj().Pkg().Path() == repoMod+"/ast"
 }
 
 // assumeParamInvs: named-parameter invariants (`paraminv`), e.g. the container of built-ins that start-up
@@ -910,4 +990,29 @@ func (c *Ctx) assumeParamInvs(fr *Frame, st *State) {
 		c.assume("true", tv.T)
 		c.noteAssumption("parameter invariant assumed for `" + pi.Name + "`: " + pi.Text)
 	}
+}
+
+func (c *Ctx) loopHasTracedCalls(fr *Frame, li *loopInfo) bool {
+	for b := range li.blocks {
+		for _, ins := range b.Instrs {
+			if call, ok := ins.(ssa.CallInstruction); ok {
+				if _, traced := c.tracedKey(fr, call.Common()); traced {
+					return true
+				}
+				// local closures are inlined: look inside
+				if mc, ok := call.Common().Value.(*ssa.MakeClosure); ok {
+					for _, bb := range mc.Fn.(*ssa.Function).Blocks {
+						for _, i2 := range bb.Instrs {
+							if c2, ok := i2.(ssa.CallInstruction); ok {
+								if _, traced := c.tracedKey(fr, c2.Common()); traced {
+									return true
+								}
+							}
+						}
+					}
+				}
+			}
+		}
+	}
+	return false
 }
